@@ -5,39 +5,76 @@ READY = True
 
 META = {
     "technique": "Lean 4 proof of a taint-soundness invariant of the safe-bit calculus, stated over template PROGRAMS "
-                 "(big-step interpreter execProg of an AST with macros, call blocks, captures, includes, inheritance) + "
-                 "differential correspondence: every registered filter/function/pycompat method and generated programs, "
-                 "engine vs. the Lean interpreter",
+                 "(big-step interpreter of an AST with macros, call blocks, captures, include / import / from-import, "
+                 "inheritance with super() and child statements outside blocks, per-template auto-escape modes, custom "
+                 "auto-escape callback, custom formatter; entry points render, render_block, Expression::eval) + a complete "
+                 "safety-class table of every registered callable regenerated from the sources + differential "
+                 "correspondence: every callable of that table and generated multi-mode programs, engine vs. the Lean interpreter",
     "category": "proof",
     "text": "Kernel-checked: (1) machine level — a Safe string never holds a < > \" ' that came from data (Inv); every "
             "primitive step (emit, capture, macro return, every operator/filter/method model incl. the safety-aware "
-            "replace/join/format/truncate) preserves Inv in Html mode; emit∘endCapture is the identity (escaped once); "
-            "HtmlEscape kills every metacharacter for the table and both range pre-filters regenerated from utils.rs. "
-            "(2) program level — program_no_raw_tainted_meta: for every program of the syntactic fragment HtmlOnlyP "
-            "(all template names select Html by default_auto_escape_callback, autoescape blocks true/\"html\", filters "
-            "modelled and not safe/tojson) and every context, execProg writes no data-tainted < > \" '. "
-            "(3) tables regenerated from source: all registered filter/function/pycompat-method names are classified; "
-            "every site that constructs a Safe string, calls preserve_safety or reads the bit (file::fn x count) is "
-            "accounted for. Tie: every filter/method called on the real engine with every Safe/Normal argument pattern "
-            "(exact model, or class predicate select/forward/normal/pieces, + direct 'no data metacharacter in a Safe "
-            "result' oracle); generated multi-template programs sent as AST to execProg, engine output byte-equal, no raw "
-            "metacharacter, capture wrappers render identically; autoescape-region and template-name probes through "
-            "execProg; values of every ValueRepr kind (bytes valid/invalid UTF-8, floats, 128-bit integers, objects with "
-            "their own render, containers of them) through every printing path (stream K) and every stringifying filter; "
-            "the write_escaped dispatch and the ValueRepr/as_str tables regenerated from source and compared with the model; "
-            "all Unicode scalars through upper/lower/capitalize; 20k random floats through the number formatter.",
+            "replace/join/format/truncate, random, lipsum) preserves Inv in Html mode AND in mode None; emit∘endCapture is "
+            "the identity (escaped once); HtmlEscape kills every metacharacter for the table and both range pre-filters "
+            "regenerated from utils.rs. (2) the safety-class table is COMPLETE: C02_CALLABLES is regenerated from "
+            "defaults.rs (filters, tests, functions), contrib add_to_environment and pycompat unknown_method_callback with, per "
+            "callable, its Rust return type and body facts (preserve_safety, from_safe_string / StringType::Safe, is_safe(), "
+            "State::format / join_safe, escape_formatter, write_escaped, dynamic dispatch, calls of other registered "
+            "implementations, nested fns); all_safe_producers_modelled: every callable that CAN construct a Safe string has an "
+            "exact model with a lemma <name>_preserves_inv (or is safe/tojson = class markup, outside the property's "
+            "quantifier); non_producers_classified: every other callable returns unmarked strings by its signature (tests → "
+            "bool; String/bool/integer return types → class normal, Value::from(String) builds StringType::Normal is itself a "
+            "regenerated fact; Value return types without a producer → forwarding classes); producer_sites_attributed: every "
+            "program point that marks a string is one of four primitives or lies inside a registered callable (no helper can "
+            "mark strings unnoticed). (3) program level — program_no_raw_tainted_meta over the extended class ProgOk: "
+            "include, import-as-module, from-import with aliases (macros and top-level variables), extends + blocks + super() "
+            "+ child statements outside blocks, macros imported from templates whose NAME selects another mode (the body runs "
+            "in the mode of the call site; variables a .txt library captured are unmarked, those of a .html library Safe), "
+            "{% autoescape %} with every documented value (true / \"html\" anywhere, false / \"none\" around statements that "
+            "write nothing or inside opaque targets; \"json\" and undocumented values are outside / errors), a custom "
+            "auto-escape callback (Prog.modes), Environment::set_formatter (the documented wrapper), render_block "
+            "(render_block_no_raw_tainted_meta) and Expression::eval (expression_eval_inv: the returned value satisfies Inv); "
+            "the same without premise for the guarded interpreter. One induction (exec_ht) over the nine interpreter functions "
+            "with a flagged invariant: capture buffers whose text can never become a Safe string (discarded output, module "
+            "captures, captures ending in None) may hold anything. (4) escaped_once for every capture construct of that "
+            "class: escaped_once_set_block / _filter_block / _macro_call / _call_block / _caller / _super (the enclosing "
+            "target receives exactly the text the body wrote into the capture, whatever the body is — includes of templates "
+            "with another mode, imported macros, blocks) and escaped_once_print (a Safe string prints verbatim in every "
+            "mode wherever it was captured: imported variables, module variables), escaped_once_capture_open (captures are "
+            "balanced, so the side condition always holds). MOVED FROM VALIDATED TO PROVED in this round: completeness of "
+            "the class table w.r.t. the registrations and the body facts (was: hand-kept name list + sampled class "
+            "predicates); random and lipsum have exact models; all named models in mode None; import / from-import / module "
+            "objects / child statements outside blocks / per-template modes / custom callback / custom formatter / "
+            "render_block / Expression::eval inside execProg and its theorems (were: not modelled or only differential); "
+            "autoescape false/none regions around captures (were: excluded); escaped-once at program level for each capture "
+            "construct (was: machine-level only + W stream). Tie: stream G drives EVERY callable of the regenerated table "
+            "(filters also through map) on Safe/Normal x metacharacter / escaped-entity bearing subjects (a Safe result must "
+            "not hold a metacharacter that only unmarked or entity-escaped data carried: taint by disjoint alphabets, two "
+            "passes with swapped roles); F/C exact models / class predicates on hand-written shapes; P generated multi-template "
+            "programs (libraries .html/.txt/.xml/.md, import styles, aliases, module variables, custom callback, custom "
+            "formatter, child statements, autoescape values) sent as AST to the guarded interpreter first (inside the fragment: "
+            "output byte-equal, clean, no raw metacharacter) else to the unguarded one (byte-equal); T every way a value, macro "
+            "or output crosses between templates of modes h/n/j (default and custom callback); B render_block; E "
+            "Expression::eval values with their Safe bits; R custom formatter and AutoEscape::Custom; W capture wrappers "
+            "render identically; M capture kinds x all autoescape values; N template names; K value kinds; X Unicode / numbers.",
     "design_ref": "DESIGN.md §3 C02",
     "level_note": "Trusted: Lean kernel; hand transcription of utils.rs/output.rs/argtypes.rs/filters.rs/pycompat.rs safety "
-                  "branches and of the vm's mode/capture handling into MJ/Model/Safe.lean and MJ/Model/SafeProg.lean "
-                  "(validated differentially, sampled); the harness' rendering of an AST to template source text (validated "
-                  "by byte-equal outputs); class predicates for filters without an exact model are validated on sampled "
-                  "argument shapes only; Unicode case mapping enters as hypothesis Reflects, validated exhaustively per "
-                  "scalar value; macro names global, only top-level blocks, child-template statements outside blocks and "
-                  "import statements are not modelled.",
+                  "branches and of the vm's mode/capture/import/extends handling into MJ/Model/Safe.lean and "
+                  "MJ/Model/SafeProg.lean (validated differentially, sampled); that the only ways to build a Safe string in "
+                  "Rust are the scanned syntactic forms (from_safe_string, StringType::Safe, preserve_safety); the harness' "
+                  "rendering of an AST to template source text (validated by byte-equal outputs); class predicates for "
+                  "callables WITHOUT a producer fact are validated on sampled argument shapes only; Unicode case mapping enters "
+                  "as hypothesis Reflects, validated exhaustively per scalar value. Model simplifications (generator respects "
+                  "them): macro names unique per program, imports at the head of a template, macro closures = the variables "
+                  "the defining template had set at its top level, only top-level blocks take part in inheritance, included / "
+                  "imported templates do not extend, blocks inside from-imported templates (skipped by the engine while "
+                  "discarding) not modelled, State::format inside join under a custom formatter not modelled, `|e` in mode "
+                  "None inside a template whose NAME selects Json (falls back to Json) not modelled, AutoEscape::Custom only "
+                  "as an engine-side stream (the default formatter refuses to write).",
 }
 
 TABLES = ["HTML_ESCAPE_TABLE", "HTML_NEEDS_ESCAPING", "HTML_ESCAPE_FILTER_SUB", "SAFE_PRODUCER_SITES", "FILTER_NAMES",
-          "AUTOESCAPE_BY_NAME", "AUTOESCAPE_SHAPE", "PYCOMPAT_METHODS"]
+          "AUTOESCAPE_BY_NAME", "AUTOESCAPE_SHAPE", "PYCOMPAT_METHODS", "C02_CALLABLES", "C02_VALUE_REPR_VARIANTS",
+          "C02_WRITE_ESCAPED_DISPATCH"]
 METAS = set("<>\"'")
 LOCAL_CLASS = {"op~": "modelled", "op+": "modelled", "op*": "modelled", "op[:]": "modelled", "op[]": "modelled",
                "loop.cycle": "select", "str.replace#count": "normal", "str.splitlines#keepends": "normal"}
@@ -51,6 +88,10 @@ def arg_key_leaves(enc):
 
 def dec(cps):
     return "" if cps in ("-", "") else "".join(chr(int(t)) for t in cps.split("."))
+
+
+def enc(text):
+    return "-" if not text else ".".join(str(ord(ch)) for ch in text)
 
 
 def parse_enc(s):
@@ -77,25 +118,77 @@ def parse_enc(s):
     return leaves
 
 
+def check_call(r, cj, c, enc, cls, site, m=None, res=None, no_model=False):
+    """oracles on the value a callable returned: the property itself (no Safe string with a
+    data-tainted metacharacter; taint by disjoint alphabets: `dm` = the metacharacters that only
+    unmarked arguments — raw or as escaped entities inside Safe ones — carry in this pass), the exact
+    model when there is one, else the predicate of its class"""
+    pat = c["pattern"]
+    leaves = parse_enc(enc)
+    arg_leaves = [l for a in c["args"] for l in parse_enc(a) + arg_key_leaves(a)]
+    in_safe = {t for (sf, t) in arg_leaves if sf}
+    if cls != "markup" and arg_leaves:
+        for sf, t in leaves:
+            if sf and any(ch in c["dm"] for ch in t):
+                r.oracle_failure(cj, f"`{c['expr']}` with arguments {pat} returned a Safe string holding a "
+                                     f"metacharacter that only unmarked / escaped data carried: {t!r}", site)
+                break
+    if m is not None:
+        if m[0] != "OK" or m[1] != enc:
+            r.model_disagreement(cj, res, "\t".join(m))
+    elif cls == "forward":
+        bad = [t for sf, t in leaves if sf and t not in in_safe]
+        if bad:
+            r.oracle_failure(cj, f"class forward violated: `{c['expr']}` ({pat}) created Safe string {bad[0]!r}", site)
+    elif cls == "select":
+        in_all = set(arg_leaves)
+        bad = [(sf, t) for sf, t in leaves if (sf, t) not in in_all]
+        if bad:
+            r.oracle_failure(cj, f"class select violated: `{c['expr']}` ({pat}) returned string {bad[0][1]!r} "
+                                 f"(safe={bad[0][0]}) that is no argument leaf with that bit", site)
+    elif cls == "pieces":
+        bad = [t for sf, t in leaves if sf and not any(t in u for u in in_safe)]
+        if bad:
+            r.oracle_failure(cj, f"class pieces violated: `{c['expr']}` ({pat}) created Safe string {bad[0]!r}", site)
+    elif cls == "normal":
+        bad = [t for sf, t in leaves if sf]
+        if bad:
+            r.oracle_failure(cj, f"class normal violated: `{c['expr']}` ({pat}) returned Safe string {bad[0]!r}", site)
+    elif cls in ("markup", "mapped", "modelled", "bool"):
+        pass
+    elif not no_model:
+        r.broken.append(f"case for `{c['name']}` has class {cls} but no exact model")
+
+
 def run(r):
-    r.rule = ("stream F/C: every registered filter/function/operator x 2 metacharacter role passes x content variants x all "
-              "Safe/Normal assignments of its string arguments; stream P: seeded generated programs (macros, call blocks, "
-              "set/filter blocks, loops, recursion, includes, imports, 2-3 level inheritance, *.html/*.xml/*.htm/.j2 names) "
-              "with data strings over < > \" ' & / Greek, whitespace; W: program body wrapped in 8 capture constructs; "
-              "M: 6 capture kinds x 5 autoescape regions x 3 data strings; N: 14 template names; X: all Unicode scalar values. "
-              "A case is non-trivial when the engine rendered/evaluated it without error and it is distinct")
+    r.rule = ("stream G: every callable of the regenerated table (filters, tests, functions, pycompat methods; filters also "
+              "through map) x 9 subjects (Safe with markup and escaped entities, unmarked, containers, numbers) x 9 argument "
+              "shapes x 2 metacharacter role passes; stream F/C: hand-written calls of every filter/function/operator x 2 passes x "
+              "content variants x all Safe/Normal assignments of its string arguments; stream P: seeded generated programs "
+              "(macros, call blocks, set/filter blocks, loops, recursion, includes, import-as-module / from-import with aliases, "
+              "library variables, libraries and parents whose names select other modes, child statements outside blocks, every "
+              "autoescape value, custom callback, custom formatter, 2-3 level inheritance) with data strings over < > \" ' & / "
+              "Greek, whitespace; W: program body wrapped in 8 capture constructs; T: 14 cross-template flows x 4 library names x "
+              "3 main names x 2 callbacks x 2 data strings; B: render_block; E: 158 expressions through Expression::eval; R: custom "
+              "formatter on 7 printing paths + AutoEscape::Custom; M: 7 capture kinds x 8 autoescape values x 3 data strings; "
+              "N: 17 template names; K: value kinds; X: all Unicode scalar values. A case is non-trivial when the engine "
+              "rendered/evaluated it without error and it is distinct")
     r.assumptions = [
-        "programs of the fragment decompose into the step sequences produced by the harness flattener (validated by byte-equal output per program)",
-        "filters without an exact model satisfy their class predicate (forward/normal) on all inputs, not only the sampled ones",
-        "template names outside *.html/*.htm/*.xml(+.j2/.jinja/.jinja2), custom formatters and custom auto-escape callbacks are outside the property",
-        "contrib filters behind cargo features not enabled in the harness (random, lipsum, wordcount, wordwrap, datetime) are classified from reading only",
+        "the hand transcription of the engine's mode / capture / import / extends handling into execProg is faithful beyond the generated programs (validated by byte-equal output per program)",
+        "callables without a producer fact satisfy their class predicate (forward/normal) on all inputs, not only the sampled ones; the body facts are syntactic (a Safe string can only be built by from_safe_string / StringType::Safe / preserve_safety)",
+        "template names that select Json, AutoEscape::Custom, formatters other than wrappers of escape_formatter, and explicit safe marking (safe, tojson, Value::from_safe_string by the host) are outside the property",
+        "model simplifications listed in level_note (unique macro names, imports at the head of a template, closure = top-level variables of the defining template)",
     ]
     st = r.regen_tables(TABLES)
     r.lean_prove("MJ.Props.C02", "MJ/Audit/C02.lean", extra_targets=["drive_c02"])
     exe = r.cargo_build("c02")
     if exe is None:
         return
-    rc, out, err = r.harness(exe, ["gen", r.tier])
+    # the complete callable table regenerated from the sources drives stream G
+    table = (st["items"].get("C02_CALLABLES") or {}).get("callables") or []
+    if not table:
+        r.broken.append("the table of registered callables (C02_CALLABLES) is empty: stream G cannot run")
+    rc, out, err = r.harness(exe, ["gen", r.tier, "-"], inp="".join(f"{t['kind']}\t{t['name']}\n" for t in table))
     if rc != 0:
         r.broken.append(f"harness c02 exited {rc}: {err[-300:]}")
         return
@@ -107,12 +200,22 @@ def run(r):
     names = st["items"].get("FILTER_NAMES") or {"builtin": [], "contrib": [], "functions": []}
     all_names = (list(names["builtin"]) + list(names["contrib"]) + list(names["functions"])
                  + list(st["items"].get("PYCOMPAT_METHODS") or []))
+    for t in table:
+        if t["kind"] != "test" and t["name"] not in all_names:
+            all_names.append(t["name"])
+    producers = {t["name"] for t in table if t["kind"] != "test" and (t["preserve"] or t["mark"] or t["via"])}
     inp = [f"?class\t{n}" for n in all_names]
     for i, (_, c, _) in enumerate(cases):
         if c.get("model"):
             inp.append(f"{i}\t{c['model']}")
+        elif c.get("prog") and c.get("block"):
+            inp.append(f"{i}\tBLOCK\t2\t{enc(c['block'])}\t{c['prog']}\t{c['ctxsx']}")
         elif c.get("prog"):
-            inp.append(f"{i}\tPROG\t{c['strict']}\t{c['prog']}\t{c['ctxsx']}")
+            # generated programs: the guarded interpreter first ("2"), the unguarded one when the program
+            # leaves the fragment (other template modes, emitting with auto-escaping off)
+            inp.append(f"{i}\tPROG\t{2 if c['s'] in ('P', 'W', 'T', 'B') else c['strict']}\t{c['prog']}\t{c['ctxsx']}")
+        elif c.get("exprsx"):
+            inp.append(f"{i}\tEXPR\t{c['strict']}\t{c['exprsx']}\t{c['ctxsx']}")
     mlines = r.driver("drive_c02", "\n".join(inp) + "\n")
     no_model = mlines is None   # (already recorded as broken) — the engine-only oracles still run
     if no_model:
@@ -129,6 +232,8 @@ def run(r):
         if classes.get(n, "unclassified") == "unclassified":
             r.broken.append(f"filter/function `{n}` is registered in /repo but has no safety class in MJ/Model/Safe.lean")
     ok_by_name = collections.Counter()
+    ok_generic = collections.Counter()
+    generic_seen = set()
     seen_names = set()
     not_registered = set()
     for i, (cj, c, res) in enumerate(cases):
@@ -167,41 +272,42 @@ def run(r):
             ok_by_name[name] += 1
             r.count(key, True)
             site = f"filter:{name}:{pat}"
-            leaves = parse_enc(rf[1])
-            in_safe = {t for a in c["args"] for (sf, t) in parse_enc(a) if sf}
-            if cls != "markup":
-                for sf, t in leaves:
-                    if sf and any(ch in c["dm"] for ch in t):
-                        r.oracle_failure(cj, f"`{c['expr']}` with argument safety {pat} returned a Safe string holding a "
-                                             f"metacharacter of an unmarked argument: {t!r}", site)
-                        break
-            if m is not None:
-                if m[0] != "OK" or m[1] != rf[1]:
-                    r.model_disagreement(cj, res, "\t".join(m))
-            elif cls == "forward" or cls == "mapped":
-                bad = [t for sf, t in leaves if sf and t not in in_safe]
-                if bad:
-                    r.oracle_failure(cj, f"class forward violated: `{c['expr']}` ({pat}) created Safe string {bad[0]!r}", site)
-            elif cls == "select":
-                in_all = {(sf, t) for a in c["args"] for (sf, t) in parse_enc(a) + arg_key_leaves(a)}
-                bad = [(sf, t) for sf, t in leaves if (sf, t) not in in_all]
-                if bad:
-                    r.oracle_failure(cj, f"class select violated: `{c['expr']}` ({pat}) returned string {bad[0][1]!r} "
-                                         f"(safe={bad[0][0]}) that is no argument leaf with that bit", site)
-            elif cls == "pieces":
-                bad = [t for sf, t in leaves if sf and not any(t in u for u in in_safe)]
-                if bad:
-                    r.oracle_failure(cj, f"class pieces violated: `{c['expr']}` ({pat}) created Safe string {bad[0]!r}", site)
-            elif cls == "markup":
-                pass
-            elif cls == "normal":
-                bad = [t for sf, t in leaves if sf]
-                if bad:
-                    r.oracle_failure(cj, f"class normal violated: `{c['expr']}` ({pat}) returned Safe string {bad[0]!r}", site)
-            elif not no_model:
-                r.broken.append(f"stream C case for `{name}` has class {cls} but no exact model")
+            check_call(r, cj, c, rf[1], cls, site, m, res, no_model)
             if len(r.samples) < 4 and i % 500 == 7:
                 r.sample({"filter_call": c["expr"], "args": c["args"], "engine": rf[1]})
+        elif s == "G":
+            name, pat = c["name"], c["pattern"]
+            via = c.get("via")
+            label = f"map({via})" if via else name
+            r.hist["generic"][label] += 1
+            seen_names.add(name if not via else via)
+            ok_by_name[name if not via else via] += 1
+            ok_generic[label] += 1
+            key = f"G:{c['expr']}:{pat}:{c['dm']}"
+            r.count(key, True)
+            site = f"callable:{label}:{pat}"
+            if name.startswith("test:"):
+                if name[5:].replace("_", "").isalnum():
+                    if not rf[1].startswith("B:"):
+                        r.oracle_failure(cj, f"test `{c['expr']}` returned a non-boolean {rf[1]!r}", site)
+                    cls = "bool"
+                else:
+                    cls = "select"      # through `[a0]|select("<op>", …)|list`
+            elif via:
+                cls = "markup" if classes.get(via) == "markup" else "mapped"
+            else:
+                cls = classes.get(name, "unclassified")
+                if cls == "select" or (cls in ("modelled", "mapped") and name not in producers and not name.startswith("map")):
+                    # `select` is validated on the hand-written shapes (on a string subject such a filter walks
+                    # the characters); an exact model is not shipped in this stream: a callable that cannot
+                    # construct Safe strings (by the regenerated body facts) must at least forward
+                    cls = "forward"
+            check_call(r, cj, c, rf[1], cls, site, None, res, no_model)
+            if len(r.samples) < 6 and i % 900 == 11:
+                r.sample({"callable": c["expr"], "args": c["args"], "engine": rf[1]})
+        elif s == "G#":
+            r.hist["generic_errors"][c["name"]] += sum(c["errors"].values())
+            generic_seen.add(c["name"])
         elif s in ("P", "K"):
             for ft in c["feats"]:
                 r.hist["program_features" if s == "P" else "kind_probe"][ft] += 1
@@ -214,7 +320,15 @@ def run(r):
                     r.model_disagreement(cj, res, "\t".join(m or []))
                 continue
             text = dec(rf[2])
-            raw = sorted(METAS & set(text))
+            in_fragment = m is None or m[0] != "OK" or len(m) < 5 or m[4] == "fragment"
+            if s == "P":
+                r.hist["program_class"]["fragment" if in_fragment else "outside (other template mode / writes with escaping off)"] += 1
+                if m is not None and m[0] == "OK" and len(m) > 5:
+                    # the decision procedure for the SYNTACTIC class of the theorem (ProgOk), evaluated by the driver
+                    r.hist["syntactic_class"][m[5]] += 1
+                    if m[5] == "progok" and not in_fragment:
+                        r.broken.append(f"program {i} is in the syntactic class ProgOk but the guarded interpreter refused it")
+            raw = sorted(METAS & set(text)) if in_fragment else []
             if raw:
                 r.oracle_failure(cj, f"output of a safe-marking-free program contains raw {''.join(raw)!r} "
                                      f"(template text has none): …{text[max(0, text.index(raw[0]) - 20):text.index(raw[0]) + 20]!r}…",
@@ -226,7 +340,7 @@ def run(r):
                                      "program:double-escape")
                 elif not raw:
                     r.model_disagreement(cj, res, "\t".join(m or []))
-            elif m[3] != "clean":
+            elif in_fragment and m[3] != "clean":
                 r.broken.append(f"model output of a fragment program is not clean (case {i}) — theorem/driver mismatch")
             if i % 700 == 3:
                 r.sample({"templates": c["t"], "ctx": c["ctx"], "output": text[:200]})
@@ -240,11 +354,65 @@ def run(r):
                 r.oracle_failure(cj, f"body wrapped in {c['kind']} renders differently: "
                                      f"{dec(rf[2])[:100] if rf[0] == 'OK' else res!r} vs plain {dec(pt[2])[:100]!r}",
                                  "wrap:" + c["kind"])
+        elif s in ("T", "B", "R") and c.get("prog"):
+            kind = c["kind"]
+            label = f"{s}:{kind}:{c.get('lib', '')}:{c.get('libmode', '')}->{c['main']}:{c.get('mainmode', '')}:{c.get('callback', '')}"
+            r.hist["cross_template" if s == "T" else ("render_block" if s == "B" else "custom_formatter")][f"{kind}:{c.get('libmode', '')}->{c.get('mainmode', '')}"] += 1
+            bok, mok = rf[0] == "OK", (m is not None and m[0] == "OK")
+            r.count(label + json.dumps(c["ctx"], sort_keys=True), bok)
+            if m is None or bok != mok or (bok and m[2] != rf[2]):
+                r.model_disagreement(cj, res, "\t".join(m or []))
+                if bok and c.get("mainmode") == "h" and c.get("libmode", "h") == "h" and METAS & set(dec(rf[2])):
+                    r.oracle_failure(cj, f"{kind}: data written raw: {dec(rf[2])!r}", f"cross:{kind}")
+                continue
+            if not bok:
+                continue
+            text = dec(rf[2])
+            frag = len(m) > 4 and m[4] == "fragment"
+            r.hist["probe_class"]["fragment" if frag else "outside"] += 1
+            if not frag and c.get("mainmode") == "h" and c.get("libmode", "h") in ("h", "") and s != "R":
+                r.broken.append(f"the guarded interpreter refused an all-Html probe ({label}): the fragment oracle would be switched off")
+            if frag:
+                if METAS & set(text):
+                    r.oracle_failure(cj, f"{kind} ({c.get('lib', '')} -> {c['main']}): data written raw: {text!r}", f"cross:{kind}")
+                if m[3] != "clean":
+                    r.broken.append(f"model output of a fragment program is not clean (case {i}) — theorem/driver mismatch")
+            elif c.get("mainmode") == "h" and m[3] != "clean":
+                if c.get("libmode") == "j" and c.get("site") == "end_capture":
+                    # a capture made while the library's mode is Json crosses into the Html template
+                    r.oracle_failure(cj, f"{kind}: block captured under Json ({c['lib']}) is marked safe and printed raw under Html: {text!r}",
+                                     "end_capture:json->html")
+                else:
+                    # a template whose NAME selects another mode writes into the output itself (include / extends):
+                    # outside the property's quantifier (all template names select Html)
+                    r.hist["outside_by_template_name"][f"{kind}:{c.get('libmode')}->{c.get('mainmode')}"] += 1
+        elif s == "R":
+            # AutoEscape::Custom with the default formatter: nothing of the data may be written
+            r.count("R:custom:" + c["src"], True)
+            r.hist["custom_formatter"]["custom-mode:" + rf[0]] += 1
+            if rf[0] == "OK" and METAS & set(dec(rf[2])):
+                r.oracle_failure(cj, f"AutoEscape::Custom: the default formatter wrote data: {dec(rf[2])!r}", "custom-mode")
+        elif s == "E":
+            bok, mok = rf[0] == "OK", (m is not None and m[0] == "OK")
+            r.count("E:" + c["exprsrc"] + json.dumps(c["ctx"], sort_keys=True), bok)
+            r.hist["expression_eval"][rf[0]] += 1
+            if m is None or bok != mok or (bok and m[1] != rf[1]):
+                r.model_disagreement(cj, res, "\t".join(m or []))
+            if bok:
+                for sf, t in parse_enc(rf[1]):
+                    if sf and METAS & set(t):
+                        r.oracle_failure(cj, f"Expression::eval(`{c['exprsrc']}`) returned a Safe string holding a raw metacharacter: {t!r}", "expr:safe-leaf")
+                        break
         elif s in ("M", "N"):
             key = f"{s}:{c.get('kind', c.get('name'))}:{c.get('region', '')}:{c['ctx']['d']}"
             r.count(key, rf[0] == "OK")
             label = c.get("kind") or c.get("name")
             r.hist["probe"][f"{s}:{label}:{c.get('region', c.get('mode'))}"] += 1
+            if c.get("mode") == "e":
+                # not a documented value of the autoescape tag: an error, nothing is rendered
+                if rf[0] == "OK" or m is None or m[0] == "OK":
+                    r.model_disagreement(cj, res, "\t".join(m or []))
+                continue
             if m is None or rf[0] != "OK" or m[0] != "OK" or m[2] != rf[2]:
                 r.model_disagreement(cj, res, "\t".join(m or []))
                 if rf[0] == "OK" and c["mode"] in ("n", "h") and METAS & set(dec(rf[2])):
@@ -274,11 +442,31 @@ def run(r):
             r.broken.append(f"no stream F/C case exercises `{n}` (class {cls})")
         elif ok_by_name[n] == 0:
             r.broken.append(f"`{n}` never evaluated successfully in stream F/C")
+    for t in table:
+        key = ("test:" + t["name"]) if t["kind"] == "test" else t["name"]
+        if key not in generic_seen:
+            r.broken.append(f"stream G did not drive the registered {t['kind']} `{t['name']}`")
+        elif t["kind"] == "test" and ok_generic[key] == 0:
+            r.broken.append(f"test `{t['name']}` never evaluated successfully in stream G")
+    if os.environ.get("C02_DEBUG"):
+        with open(os.environ["C02_DEBUG"], "w") as fh:
+            json.dump({"disagreements": r.model_disagreements[:60], "failures": r.oracle_failures[:60]}, fh)
+    pc = r.hist["program_class"]
+    if sum(pc.values()) and pc.get("fragment", 0) * 10 < 7 * sum(pc.values()):
+        r.broken.append(f"only {pc.get('fragment', 0)} of {sum(pc.values())} generated programs are inside the fragment of the theorem: "
+                        "the no-raw-metacharacter oracle covers too little")
+    sc = r.hist["syntactic_class"]
+    if sum(sc.values()) and sc.get("progok", 0) * 2 < sum(sc.values()):
+        r.broken.append(f"only {sc.get('progok', 0)} of {sum(sc.values())} generated programs are in the syntactic class ProgOk")
+    r.extra["failure_sites"] = dict(collections.Counter(":".join((f.get("site") or "").split(":")[:2]) for f in r.oracle_failures).most_common(40))
+    r.extra["callable_table"] = {"rows": len(table), "producers": sorted(producers),
+                                 "by_kind": dict(collections.Counter(t["kind"] for t in table))}
     r.extra["classes"] = {n: classes.get(n) for n in all_names}
     r.extra["n_cases"] = dict(r.hist["stream"])
     r.extra["stage"] = ("programs/syntactic-fragment: theorem program_no_raw_tainted_meta is stated over template programs "
-                        "(HtmlOnlyP p -> output of execProg false p ctx is clean) and over the guarded interpreter "
-                        "(execProg true) without premise; the driver runs the guarded interpreter on generated programs")
+                        "(ProgOk p -> output of execProg false p ctx is clean) and over the guarded interpreter "
+                        "(execProg true) without premise; the driver runs the guarded interpreter first on every generated "
+                        "program (success = inside the fragment), the unguarded one otherwise")
 
 
 def replay(r, path):
